@@ -80,7 +80,7 @@ func (b *c09Backend) parked() int64 {
 	return 0
 }
 
-func (b *c09Backend) parkPoint(op, key string) error {
+func (b *c09Backend) parkPoint(ctx context.Context, op, key string) error {
 	p := b.park
 	if p == nil || p.op != op || p.key != key || !p.used.CompareAndSwap(false, true) {
 		return nil
@@ -89,6 +89,11 @@ func (b *c09Backend) parkPoint(op, key string) error {
 	close(p.entered)
 	<-p.release
 	p.active.Store(false)
+	if err := ctx.Err(); err != nil {
+		// like a real network backend: the caller's context ended while the
+		// operation was in flight; it did not take effect
+		return fmt.Errorf("c09 backend: %s of %q aborted: %w", op, key, err)
+	}
 	if p.fail {
 		b.mu.Lock()
 		b.injected++
@@ -119,7 +124,7 @@ func (b *c09Backend) Upload(ctx context.Context, key string, data []byte, opts *
 	if err := ctx.Err(); err != nil {
 		return err
 	}
-	if err := b.parkPoint("upload", key); err != nil {
+	if err := b.parkPoint(ctx, "upload", key); err != nil {
 		return err
 	}
 	b.mu.Lock()
@@ -137,7 +142,7 @@ func (b *c09Backend) Fetch(ctx context.Context, key string) ([]byte, error) {
 	if err := ctx.Err(); err != nil {
 		return nil, err
 	}
-	if err := b.parkPoint("fetch", key); err != nil {
+	if err := b.parkPoint(ctx, "fetch", key); err != nil {
 		return nil, err
 	}
 	b.mu.Lock()
@@ -398,6 +403,10 @@ type c09Sub struct {
 	// rejected, "accept" = must be accepted, "observe" = conditional invariants only
 	expect string
 
+	// ctx, when set, is the request context (the client connection); cancelling
+	// it models a client disconnect.
+	ctx context.Context
+
 	code int
 	resp []byte
 	done atomic.Bool
@@ -417,6 +426,9 @@ func (f *c09Flight) launch(s *c09Sub) {
 		rec := httptest.NewRecorder()
 		req := httptest.NewRequest("POST", "/ct/v1/"+s.Endpoint, bytes.NewReader(s.Body))
 		req.Header.Set("Content-Type", "application/json")
+		if s.ctx != nil {
+			req = req.WithContext(s.ctx)
+		}
 		f.env.handler.ServeHTTP(rec, req)
 		s.code, s.resp = rec.Code, rec.Body.Bytes()
 		s.done.Store(true)
